@@ -116,7 +116,7 @@ def prob_leaf(mk, kind, n, ops=()):
     for i, op in enumerate(ops):
         obj, R = apply_op(mk, op, obj, R, i)
         label = f"{op}({label})"
-    return observables(mk, label, obj, R, pd_claims=not kind.startswith(HEAVY))
+    return observables(mk, label, obj, R, pd_claims=not kind.startswith(HEAVY) and len(ops) <= 1)
 
 
 def prob_product(mk, kl, kr, n, ops=()):
@@ -219,7 +219,7 @@ def cases(tier):
 
     for n in (1, 2):
         for kind in ml.leaves(n):
-            heavy = kind.startswith(HEAVY)
+            heavy = kind.startswith(HEAVY) or kind == "softabs_dense"
             G(f"leaf/{kind}/n{n}/base", [("leaf", {"kind": kind, "n": n})])
             if heavy and not thorough and n == 2:
                 G(f"leaf/{kind}/n{n}/unary", [("leaf", {"kind": kind, "n": n, "ops": (op,)}) for op in ("T", "inv", "mul")])
@@ -236,13 +236,15 @@ def cases(tier):
     # depth 2: op o op
     for n in ((1, 2) if thorough else (2,)):
         for kind in (ml.leaves(n) if thorough else QUICK_D2_KINDS):
+            if kind in ("blockdiag_pd", "softabs_dense", "eig_pd") and not thorough:
+                continue
             if kind.startswith(HEAVY) and n == 2:
                 for ops in D2:
                     G(f"leaf/{kind}/n{n}/{'.'.join(ops)}", [("leaf", {"kind": kind, "n": n, "ops": ops})])
             else:
                 G(f"leaf/{kind}/n{n}/depth2", [("leaf", {"kind": kind, "n": n, "ops": ops}) for ops in D2])
     # products
-    pair_kinds = ["diagonal", "tri_lower", "dense_square", "dense_pd", "eig_sym", "lowrank_sym", "orthogonal", "scaled_identity",
+    pair_kinds = ["diagonal", "tri_lower", "dense_square", "dense_pd", "orthogonal", "scaled_identity",
                   "invtri_upper", "trifact_neg_upper"]
     if thorough:
         pair_kinds = [k for k in ml.leaves(2) if not k.startswith("blockdiag") and not k.startswith(HEAVY)] + ["lowrank_pd"]
@@ -254,8 +256,8 @@ def cases(tier):
     else:
         for i, kl in enumerate(pair_kinds):
             prods.append((kl, pair_kinds[(i + 1) % len(pair_kinds)]))
-            prods.append((kl, pair_kinds[(i + 3) % len(pair_kinds)]))
-    opsets = ((), ("inv",), ("T",), ("mul",)) if not thorough else ((), ("inv",), ("T",), ("mul",), ("neg",), ("inv", "T"))
+        prods += [("eig_sym", "lowrank_sym"), ("lowrank_sym", "diagonal"), ("dense_pd", "eig_sym")]
+    opsets = ((), ("inv",)) if not thorough else ((), ("inv",), ("T",), ("mul",), ("neg",), ("inv", "T"))
     for kl, kr in prods:
         G(f"prod/{kl}@{kr}", [("prod", {"kl": kl, "kr": kr, "n": 2, "ops": ops}) for ops in opsets])
     G("prod/rect", [("prod", {"kl": kl, "kr": kr, "n": 1}) for kl, kr in
